@@ -82,7 +82,7 @@ pub fn run(c: &Case, rep: &mut Report) {
     let v_stable = feat::validate(input, true);
     let mut ok_masks = 0;
     let mut combos = 0;
-    for mask in 0u32..128 {
+    for mask in (0u32..128).chain([1 | 512, 27 | 512, 91 | 512, 19 | 512]) {
         let parse = match end.str(&format!("parse.{}", mask)) {
             Some(p) => p,
             None => continue,
@@ -191,7 +191,7 @@ pub fn run(c: &Case, rep: &mut Report) {
     rep.count("switch-combinations-run", combos);
     rep.count("round-trips", rounds);
     rep.observe("inputs", &format!("names={} producers={} dwarf={} valid={}", decode::decode(input).map(|m| m.custom("name").is_some()).unwrap_or(false), in_prod.is_some(), !in_debug.is_empty(), v_default.is_ok()));
-    if combos == 128 {
+    if combos == 132 {
         rep.nontrivial(c, if ok_masks > 0 { "accepted" } else { "rejected" });
     }
     rep.sample(json!({"spec": c.spec, "combinations": combos, "accepted_under": ok_masks, "input_producers": in_prod, "rounds": rounds}));
